@@ -40,6 +40,46 @@ REGISTRIES = {'routes': 'add_route', 'data_types': 'add_data_type', 'aliases': '
               'annotations': 'add_annotation', 'annotation_types': 'add_annotation_type'}
 
 
+def sorted_returns(pm, ctx, rule):
+    """API-description queries that iterate dicts/sets return a value sorted on
+    every path.  Shared by C11 and C12."""
+    for q in (API + '.ApiNamespace.get_imported_namespaces',
+              API + '.ApiNamespace.get_route_io_data_types',
+              API + '.ApiNamespace.get_namespaces_imported_by_route_io'):
+        f = pm.func(q)
+        paths = [p for p in enumerate_paths(f.node) if p.end == 'return']
+        good = bool(paths)
+        for p in paths:
+            rv = p.end_node.value
+            if isinstance(rv, ast.Call) and call_name(rv) == 'sorted':
+                continue
+            if isinstance(rv, ast.Name):
+                sorted_in_place = any(
+                    isinstance(s, ast.Expr) and isinstance(s.value, ast.Call) and
+                    isinstance(s.value.func, ast.Attribute) and s.value.func.attr == 'sort' and
+                    unparse(s.value.func.value) == rv.id for s in p.stmts)
+                rebound_sorted = any(
+                    isinstance(s, ast.Assign) and unparse(s.targets[0]) == rv.id and
+                    isinstance(s.value, ast.Call) and call_name(s.value) == 'sorted'
+                    for s in p.stmts)
+                good &= sorted_in_place or rebound_sorted
+            else:
+                good = False
+        ctx.check(rule, good, '%s returns a value sorted on every path (%d paths)' % (
+            f.short, len(paths)), f.loc,
+            msg='%s returns a list in dict/set iteration order (a sort was dropped or its result '
+                'discarded): imports / IO types follow first-reference order' % f.short,
+            key='%s|%s|sorted' % (rule, q))
+        keys = [unparse(k.value) for c in own_nodes(f.node) if isinstance(c, ast.Call) and
+                (call_name(c) == 'sorted' or (isinstance(c.func, ast.Attribute) and
+                                              c.func.attr == 'sort'))
+                for k in c.keywords if k.arg == 'key']
+        ctx.check(rule, keys and all(k.endswith('.name') for k in keys),
+                  '%s sorts by name' % f.short, f.loc,
+                  msg='%s sorts by %s' % (f.short, keys), key='%s|%s|key' % (rule, q))
+
+
+
 def run(pm, ctx):
     for r, t in (('C11-R1', 'declaration-ordered registries are normalised'),
                  ('C11-R2', 'no registry store depends on declaration order'),
@@ -134,40 +174,7 @@ def run(pm, ctx):
             key='C11-R2|%s|env' % f.qualname)
 
     # ---------------- R3
-    for q in (API + '.ApiNamespace.get_imported_namespaces',
-              API + '.ApiNamespace.get_route_io_data_types',
-              API + '.ApiNamespace.get_namespaces_imported_by_route_io'):
-        f = pm.func(q)
-        paths = [p for p in enumerate_paths(f.node) if p.end == 'return']
-        good = bool(paths)
-        for p in paths:
-            rv = p.end_node.value
-            if isinstance(rv, ast.Call) and call_name(rv) == 'sorted':
-                continue
-            if isinstance(rv, ast.Name):
-                sorted_in_place = any(
-                    isinstance(s, ast.Expr) and isinstance(s.value, ast.Call) and
-                    isinstance(s.value.func, ast.Attribute) and s.value.func.attr == 'sort' and
-                    unparse(s.value.func.value) == rv.id for s in p.stmts)
-                rebound_sorted = any(
-                    isinstance(s, ast.Assign) and unparse(s.targets[0]) == rv.id and
-                    isinstance(s.value, ast.Call) and call_name(s.value) == 'sorted'
-                    for s in p.stmts)
-                good &= sorted_in_place or rebound_sorted
-            else:
-                good = False
-        ctx.check('C11-R3', good, '%s returns a value sorted on every path (%d paths)' % (
-            f.short, len(paths)), f.loc,
-            msg='%s returns a list in dict/set iteration order (a sort was dropped or its result '
-                'discarded): imports / IO types follow first-reference order' % f.short,
-            key='C11-R3|%s|sorted' % q)
-        keys = [unparse(k.value) for c in own_nodes(f.node) if isinstance(c, ast.Call) and
-                (call_name(c) == 'sorted' or (isinstance(c.func, ast.Attribute) and
-                                              c.func.attr == 'sort'))
-                for k in c.keywords if k.arg == 'key']
-        ctx.check('C11-R3', keys and all(k.endswith('.name') for k in keys),
-                  '%s sorts by name' % f.short, f.loc,
-                  msg='%s sorts by %s' % (f.short, keys), key='C11-R3|%s|key' % q)
+    sorted_returns(pm, ctx, 'C11-R3')
 
     # ---------------- R4
     from .C01 import ORDER, PASSES, on_demand_population
